@@ -329,3 +329,116 @@ def _full_case(n_in, n_out, segwit, n_wit):
 
 FULL_CASES = ([_full_case(a, b, False, 0)._contract.key for a in (1, 2) for b in (1, 2)]
               + [_full_case(a, b, True, w)._contract.key for a in (1, 2) for b in (1, 2) for w in (1, 2)])
+
+
+# ---------------------------------------------------------------------------------------------------
+# C01: the script code / scripts Input.update_scripts derives from the keys (what signature_segwit / raw(sign_id) then
+# put into the preimage), per input kind; keys symbolic, no signatures yet.
+
+from bitcoinlib.keys import Key as _Key
+from spec import script as _sps, bip32 as _b32
+
+_KeyRec = RecordOf(_Key, public_byte=Bytes(33), compressed=Const(True), is_private=Const(False), _hash160=Const(None))
+
+
+def _scripts_case(script_type, witness_type, nkeys):
+    name = 'scripts-%s-%s-%dkeys' % (script_type, witness_type, nkeys)
+    InT = RecordOf(Input, script_type=Const(script_type), witness_type=Const(witness_type), keys=FixedList(_KeyRec, nkeys), signatures=Const([]),
+                   public_hash=Const(b''), locking_script=Const(b''), unlocking_script=Const(b''), redeemscript=Const(b''), witnesses=Const([]),
+                   sigs_required=Int(1, nkeys), strict=Const(True), address=Const('(address is the subject of C04)'), network=Const(None), encoding=Const(None), compressed=Const(True),
+                   script=Const(None), locktime_cltv=Const(None), locktime_csv=Const(None))
+
+    def requires(self):
+        return all(k.public_byte[0] == 2 or k.public_byte[0] == 3 for k in self.keys)
+
+    def ensures(self, result):
+        pk = [k.public_byte for k in self.keys]
+        if script_type == 'sig_pubkey':
+            h = _b32.hash160(pk[0])
+            code = b'\x76\xa9\x14' + h + b'\x88\xac'               # P2PKH script = BIP143 script code of P2WPKH
+            ok = self.locking_script == code and self.public_hash == h
+            if witness_type == 'p2sh-segwit':
+                ok = ok and self.unlocking_script == b'\x16\x00\x14' + h          # push of the witness program 0014<hash>
+            if witness_type == 'segwit':
+                ok = ok and self.unlocking_script == b''
+            return ok
+        redeem = _sps.multisig_redeem(self.sigs_required, pk)
+        if witness_type == 'legacy':
+            return self.redeemscript == redeem and self.public_hash == _b32.hash160(redeem)
+        import hashlib
+        return self.redeemscript == redeem and self.public_hash == hashlib.sha256(redeem).digest()
+
+    d = {'params': {'self': InT}, 'kwargs': {'hash_type': 1}, 'requires': requires, 'ensures': ensures, 'native_skip': True,
+         'modifies_attrs': True,
+         '__doc__': 'Input.update_scripts for a %s / %s input with %d key(s): the script code and key hash consensus expects for that input kind'
+                    % (script_type, witness_type, nkeys)}
+    return contract('bitcoinlib.transactions.Input.update_scripts', case=name, props=('C01', 'C10'))(type(name.replace('-', '_'), (), d))
+
+
+SCRIPT_CODE_CASES = ([_scripts_case('sig_pubkey', w, 1)._contract.key for w in ('legacy', 'segwit', 'p2sh-segwit')]
+                     + [_scripts_case('p2sh_multisig', w, n)._contract.key for w in ('legacy', 'segwit', 'p2sh-segwit') for n in (2, 3)])
+
+
+# ---------------------------------------------------------------------------------------------------
+# C02: Transaction.verify - every input is verified under its OWN digest; bounded in the number of inputs (unrolled).
+
+def _m_input_verify(ip, args, kwargs):
+    from contracts import external
+    inp, h = args[0], args[1]
+    if isinstance(inp, Rec_) and 'ghost_id' in inp.attrs:
+        return SBool(external.uf(ip.ctx, 'input_ok', [inp.attrs['ghost_id'], h], z3.BoolSort()))
+    return NotImplemented
+
+
+def _m_signature_hash(ip, args, kwargs):
+    from pyvc import models
+    tx = args[0]
+    if isinstance(tx, Rec_) and tx.attrs.get('ghost_tx'):
+        a = list(args[1:]) + [kwargs.get(k) for k in ('sign_id', 'hash_type', 'witness_type') if k in kwargs]
+        a = [x if x is not None else 0 for x in a[:3]]
+        wt = a[2] if len(a) > 2 else 0
+        a[2:] = [{'legacy': 1, 'segwit': 2, 'p2sh-segwit': 3}.get(wt, 0) if isinstance(wt, str) else wt]
+        return models.uf_bytes(ip.ctx, 'sighash', a, 32)
+    return NotImplemented
+
+
+from pyvc.values import Rec as Rec_
+
+
+def _install_verify(reg):
+    def wrap(fn, model):
+        def m(ip, args, kwargs):
+            r = model(ip, args, kwargs)
+            if r is NotImplemented:
+                return ip.call_pyfunc_body(fn, args, kwargs)
+            return r
+        return m
+    reg.models[Input.verify] = wrap(Input.verify, _m_input_verify)
+    reg.models[Transaction.signature_hash] = wrap(Transaction.signature_hash, _m_signature_hash)
+
+
+INSTALLERS.append(_install_verify)
+
+
+def _tx_verify_case(n):
+    name = '%dinputs' % n
+    InV = RecordOf(Input, index_n=Int(0, 100), hash_type=Int(1, 255), witness_type=Const('segwit'), ghost_id=Int(0, 10 ** 6))
+    TxT = RecordOf(Transaction, inputs=FixedList(InV, n), verified=Const(None), ghost_tx=Const(True))
+
+    def ensures(self, result):
+        from contracts.transactions import _spec_input_ok
+        oks = [_spec_input_ok(self, x) for x in self.inputs]
+        return result == all(oks)
+
+    d = {'params': {'self': TxT}, 'ensures': ensures, 'native_skip': True,
+         '__doc__': 'Transaction.verify over %d inputs: True exactly when every input verifies under the digest computed for ITS index, hash type and witness type' % n}
+    return contract('bitcoinlib.transactions.Transaction.verify', case=name, props=('C02',))(type('txverify_%d' % n, (), d))
+
+
+def _spec_input_ok(tx, inp):
+    """abstract: input `inp` verifies under the digest of (inp.index_n, inp.hash_type, inp.witness_type)"""
+    h = Transaction.signature_hash(tx, inp.index_n, inp.hash_type, inp.witness_type)
+    return Input.verify(inp, h)
+
+
+TX_VERIFY_CASES = [_tx_verify_case(n)._contract.key for n in (1, 2, 3)]
